@@ -4,3 +4,4 @@ pub mod c12;
 pub mod c15;
 pub mod c13;
 pub mod c14;
+pub mod c01;
